@@ -1,6 +1,7 @@
 import GnarkVerif.Model.Util
 import GnarkVerif.Model.Sha256
 import GnarkVerif.Model.Transcript
+import GnarkVerif.Model.FieldOps
 /-
 Line-protocol driver: one op per input line, one canonical result per output line.
 The Go harness runs the real implementation on the same lines; bin/check diffs the two streams.
@@ -10,6 +11,7 @@ open GV
 def handleLine (line : String) : String :=
   match words line with
   | "SHA256" :: [m] => bytesToHex (Sha256.hash (parseBytes m))
+  | "C01" :: rest => FieldOps.handle rest
   | "C15" :: "sha256" :: rest => Transcript.handle Sha256.hash rest
   | _ => "bad-op"
 
